@@ -396,10 +396,14 @@ Definition pp_head : list string :=
    "observables is not None and any((len(obs) != circuit.num_qubits for obs in observables))";
    "observables is not None and any((obs.phase != 0 for obs in observables))";
    "len(circuit.cregs) != 0 or circuit.num_clbits != 0"].
+(* the extracted list is one of the given alternatives (boolean, so that the proof is a plain `reflexivity`) *)
+Definition guards_in (f : string) (alts : list (list string)) : bool :=
+  existsb (list_beq String.eqb (guards_of f)) alts.
 Example guards_partition_problem :
-  In (guards_of "cutting_decomposition:partition_problem")
-     [pp_head; (pp_head ++ ["idle_observables is not None and (idle_observables.x.any() or idle_observables.z.any())"])%list].
-Proof. vm_compute. tauto. Qed.
+  guards_in "cutting_decomposition:partition_problem"
+     [pp_head; (pp_head ++ ["idle_observables is not None and (idle_observables.x.any() or idle_observables.z.any())"])%list]
+  = true.
+Proof. reflexivity. Qed.
 Example guards_generate : guards_of "cutting_experiments:generate_cutting_experiments" =
   ["isinstance(circuits, QuantumCircuit) and (not isinstance(observables, PauliList))";
    "isinstance(circuits, dict) and (not isinstance(observables, dict))";
@@ -491,8 +495,9 @@ Proof. reflexivity. Qed.
    repair or as a listed known finding; WHICH behaviour the source has is decided by the correspondence check
    (repaired model chk_dq, or the interleaved model chk_dq_current when KNOWN_FINDINGS lists F7). *)
 Theorem c18_facts_decompose_guards :
-  In (guards_of "qpd.decompose:decompose_qpd_instructions")
+  guards_in "qpd.decompose:decompose_qpd_instructions"
      [["len(instruction_ids) != len(map_ids)"];
-      ["len(instruction_ids) != len(map_ids)"; "map_ids[i] is not None and map_ids[i] not in range(num_maps)"]].
-Proof. vm_compute. tauto. Qed.
+      ["len(instruction_ids) != len(map_ids)"; "map_ids[i] is not None and map_ids[i] not in range(num_maps)"]]
+  = true.
+Proof. reflexivity. Qed.
 Print Assumptions c18_facts_decompose_guards.
